@@ -3,7 +3,10 @@
 Model: Forward.tla layer machine (Write's bookkeeping, adjustLayer with its rate comparison abstracted to
 up/down/none, replaceTracks' limitSid) against FwdMonitor's L1-L6, exhaustive over all packet flag sequences
 (VP8-like: 3 temporal layers; VP9-like: 2 temporal x 3 spatial layers) interleaved with feedback and limitSid.
-Conformance: real Write / adjustLayer / handleReport+updateRate / replaceTracks (fwd.py); L7 on the real ceiling."""
+Schedules: LayerRace.tla splits adjustLayer and the limitSid update at the point between their load and their store
+of the shared layer word; exhaustive with compare-and-swap stores, and the plain-store configuration re-finds F16.
+Conformance: real Write / adjustLayer / handleReport+updateRate / replaceTracks (fwd.py); the racing interleavings
+forced through hooks (Adj / Lim events marked racing, judged by L3); L7 on the real ceiling."""
 import shutil
 import common as C
 import fwd
@@ -18,10 +21,20 @@ def run(tier, replay=None):
         fwd.model_runs(rep, w, tier,
                        [("MC_Forward_vp8.cfg", "VP8-like: tid<=2, 1-2 packets/frame, every flag pattern x adjust up/down x limitSid, exhaustive", None),
                         ("MC_Forward_vp9.cfg", "VP9-like: tid<=1, sid<=2, every flag pattern x adjust x limitSid, exhaustive", None)])
+        # schedules: the layer word is shared by three goroutines (LayerRace.tla)
+        r = C.tlc(w, "LayerRace.tla", "MC_LayerRace.cfg", workers=4, timeout=900, deadlock=False)
+        rep.model("MC_LayerRace.cfg (Write x adjustLayer x limitSid update split at load/store, compare-and-swap stores, 5 packets; exhaustive)", r, exhaustive=True)
+        if r.violated:
+            raise C.Inconclusive("LayerRace model violates %s\n%s" % (r.violated, r.out[-1500:]))
+        C.must_complete(r, "MC_LayerRace")
+        r2 = C.tlc(w, "LayerRace.tla", "MC_LayerRace_F16.cfg", workers=2, timeout=600, deadlock=False)
+        rep.model("MC_LayerRace_F16.cfg (plain load ... store, the pre-fix code; must violate)", r2)
+        if not r2.violated:
+            raise C.Inconclusive("model no longer reproduces F16 with the fix switched off")
         fwd.run_forward(rep, w, tier, PID, replay=replay)
         rep.assumptions += ["the direction adjustLayer moves the wanted layers depends on a clock-driven rate estimate and is not judged",
                             "the very first packet of a stream has no predecessor and is not counted as 'arriving in order' (L5)",
-                            "the schedule part (Write racing adjustLayer on the packed layer word, finding F16) is not exercised by this check"]
+                            "schedules: the interleavings TLC finds in LayerRace.tla (a Write between the load and the store of adjustLayer / of replaceTracks' limitSid update) are forced on the real code through the hooks; Write's own load..store window and Write racing Write (gotNACK) are not forced"]
         return rep.finish()
     finally:
         shutil.rmtree(w, ignore_errors=True)
